@@ -193,6 +193,18 @@ class _Run:
         self.lenof: Dict[str, str] = {}
         self.ve_names: Set[str] = set()
         self.boundary_sources: Dict[int, List[str]] = {}
+        # locals bound exactly once to `type(x)` / `x.__class__`: a membership test on the local covers a lookup with the expression
+        self.keydefs: Dict[str, str] = {}
+        stores: Dict[str, int] = {}
+        for n in walk_no_nested(fi.node):
+            if isinstance(n, ast.Name) and isinstance(n.ctx, ast.Store):
+                stores[n.id] = stores.get(n.id, 0) + 1
+        for n in walk_no_nested(fi.node):
+            tgt = n.targets[0] if isinstance(n, ast.Assign) and len(n.targets) == 1 else n.target if isinstance(n, ast.AnnAssign) and n.value is not None else None
+            if isinstance(tgt, ast.Name) and stores.get(tgt.id) == 1 and (
+                    (isinstance(n.value, ast.Call) and dotted(n.value.func) == "type" and len(n.value.args) == 1 and isinstance(n.value.args[0], ast.Name))
+                    or (isinstance(n.value, ast.Attribute) and n.value.attr == "__class__" and isinstance(n.value.value, ast.Name))):
+                self.keydefs[tgt.id] = norm(n.value)
         for n in walk_no_nested(fi.node):
             if isinstance(n, ast.Assign) and isinstance(n.value, ast.Call) and dotted(n.value.func) == "len" and n.value.args and isinstance(n.targets[0], ast.Name):
                 self.lenof[n.targets[0].id] = norm(n.value.args[0])
@@ -405,13 +417,27 @@ class _Run:
             if isinstance(op, (ast.In, ast.NotIn)):
                 member = truth == isinstance(op, ast.In)
                 if member:
-                    env.facts = env.facts | {("in", norm(r), norm(l))}
+                    env.facts = env.facts | {("in", norm(r), self.keydefs.get(l.id, norm(l)) if isinstance(l, ast.Name) else norm(l))}
                 return env
             if isinstance(op, (ast.NotEq, ast.Eq)):
                 equal = truth == isinstance(op, ast.Eq)
                 if equal:
                     a, b = self.len_text(l), self.len_text(r)
                     if a and b:
+                        env.facts = env.facts | {("leneq", a, b), ("leneq", b, a)}
+                return env
+            if isinstance(op, (ast.Lt, ast.Gt, ast.LtE, ast.GtE)):
+                # lengths are integers: `not (a < b)` and `not (a > b)` together are `a == b` (the two guard clauses of an exact-length check)
+                a, b = self.len_text(l), self.len_text(r)
+                if a and b:
+                    # normalise to a relation that HOLDS on this edge, written with <= / >= / < / >
+                    rel = {ast.Lt: "<", ast.Gt: ">", ast.LtE: "<=", ast.GtE: ">="}[type(op)]
+                    if not truth:
+                        rel = {"<": ">=", ">": "<=", "<=": ">", ">=": "<"}[rel]
+                    env.facts = env.facts | {("lenrel", a, rel, b)}
+                    flip = {"<": ">", ">": "<", "<=": ">=", ">=": "<="}
+                    have = {f[2] for f in env.facts if f[0] == "lenrel" and f[1] == a and f[3] == b} | {flip[f[2]] for f in env.facts if f[0] == "lenrel" and f[1] == b and f[3] == a}
+                    if ">=" in have and "<=" in have:
                         env.facts = env.facts | {("leneq", a, b), ("leneq", b, a)}
                 return env
         return env
@@ -459,7 +485,7 @@ class _Run:
             if base.kind == "I" and not (base.types <= {"list", "str"}) and not base.own:
                 self.hz(node, {"TypeError"}, f"slicing `{short(base_node, 40)}` which may not be a sequence")
             return
-        member = ("in", norm(base_node), norm(key_node)) in env.facts
+        member = ("in", norm(base_node), self.keydefs.get(key_node.id, norm(key_node)) if isinstance(key_node, ast.Name) else norm(key_node)) in env.facts
         if base.kind == "T":
             if k.kind == "I":
                 if k.maybe_unhashable:
